@@ -237,12 +237,23 @@ let probe st (a : string list) : string list =
       (range (int_of_string lo) (int_of_string hi))
   | _ -> []
 
-let fmt_trim (r : ((lstate * msg list) * z) * ierr option) st : string =
+(* format of the segment holding each message before the delete (mirror of kvrun versOf) *)
+let vers_of (segs0 : seg list) (ms : msg list) : string =
+  match ms with
+  | [] -> "v=-"
+  | _ ->
+    "v=" ^ String.concat "" (List.map (fun m ->
+        let v = List.fold_left (fun acc sg ->
+            if Z.leb sg.sbase m.moff
+            then (if sg.sver = V2 && not (sg.srecs = [] && false) then "2" else if sg.srecs = [] then "1" else "1")
+            else acc) "?" segs0 in v) ms)
+
+let fmt_trim segs0 (r : ((lstate * msg list) * z) * ierr option) st : string =
   let (((s', ms), sz), eo) = r in
   st.s <- s';
   match eo with
-  | None -> Printf.sprintf "ok %s%s" (string_of_z sz) (fmt_msgs ms)
-  | Some e -> Printf.sprintf "err %s %s%s" (class_name e) (string_of_z sz) (fmt_msgs ms)
+  | None -> Printf.sprintf "ok %s %s%s" (string_of_z sz) (vers_of segs0 ms) (fmt_msgs ms)
+  | Some e -> Printf.sprintf "err %s %s %s%s" (class_name e) (string_of_z sz) (vers_of segs0 ms) (fmt_msgs ms)
 
 let find_fn name a : lstate -> (lstate * z list) res =
   match name with
@@ -358,13 +369,14 @@ let step st (f : string array) : string list =
      | Err e -> [err e]
      | Ok (s', m) -> st.s <- s'; [Printf.sprintf "ok %s %s" (string_of_z m.moff) (string_of_z m.mtime)])
   | "del" ->
+    let segs0 = st.s.segs in
     (match log_delete h st.s (parse_offsets (a 1)) with
      | Err e -> [err e]
-     | Ok (s', (ms, sz)) -> st.s <- s'; [Printf.sprintf "ok %s%s" (string_of_z sz) (fmt_msgs ms)])
+     | Ok (s', (ms, sz)) -> st.s <- s'; [Printf.sprintf "ok %s %s%s" (string_of_z sz) (vers_of segs0 ms) (fmt_msgs ms)])
   | "delm" ->
     (match get_cfg st.s with
      | Err e -> [err e]
-     | Ok _ -> [fmt_trim (log_delete_multi h st.s (parse_offsets (a 1))) st])
+     | Ok _ -> [fmt_trim st.s.segs (log_delete_multi h st.s (parse_offsets (a 1))) st])
   | "size" ->
     (match get_cfg st.s with
      | Err e -> [err e]
@@ -376,15 +388,16 @@ let step st (f : string array) : string list =
   | "trimo" | "trimc" | "trims" | "trima" | "cupd" | "cdel" ->
     (match get_cfg st.s with
      | Err e -> [err e]
-     | Ok _ -> [fmt_trim (trim_multi h (find_fn (a 0) (z_of_string (a 1))) st.s) st])
+     | Ok _ -> [fmt_trim st.s.segs (trim_multi h (find_fn (a 0) (z_of_string (a 1))) st.s) st])
   | "trim1o" | "trim1c" | "trim1s" | "trim1a" | "c1upd" | "c1del" ->
+    let segs0 = st.s.segs in
     (match find_fn (a 0) (z_of_string (a 1)) st.s with
      | Err e -> [err e]
      | Ok (s', offs) ->
        st.s <- s';
        (match log_delete h st.s offs with
         | Err e -> [err e]
-        | Ok (s'', (ms, sz)) -> st.s <- s''; [Printf.sprintf "ok %s%s" (string_of_z sz) (fmt_msgs ms)]))
+        | Ok (s'', (ms, sz)) -> st.s <- s''; [Printf.sprintf "ok %s %s%s" (string_of_z sz) (vers_of segs0 ms) (fmt_msgs ms)]))
   | "rmindex" ->
     let all = (a 1 = "all") in
     let which = if all then [] else parse_offsets (a 1) in
@@ -510,9 +523,14 @@ let p_consume rest = match rest with
   | n :: ms -> (z_of_string n, List.map parse_full_msg ms)
   | [] -> failwith "consume result"
 let p_msg rest = match rest with m :: _ -> parse_full_msg m | [] -> failwith "msg result"
+let parse_vers (tok : string) : ver list =
+  (* "v=1221" or "v=-" *)
+  let body = String.sub tok 2 (String.length tok - 2) in
+  if body = "-" then []
+  else List.init (String.length body) (fun i -> if body.[i] = '1' then V1 else V2)
 let p_del rest = match rest with
-  | sz :: ms -> (z_of_string sz, List.map parse_full_msg ms)
-  | [] -> failwith "del result"
+  | sz :: vs :: ms -> ((z_of_string sz, parse_vers vs), List.map parse_full_msg ms)
+  | _ -> failwith "del result"
 let p_offs rest = match rest with o :: _ -> parse_offsets o | [] -> []
 
 let mutated cs = cs.cons1 <- []; cs.gets <- []; cs.last_stat_size <- None
@@ -715,32 +733,34 @@ let run_check (path : string) =
       else begin
         let o = obs_of r p_del in
         if not c.tainted then
-          chk "C12" "delete" (check_delete c.a (isz ()) c.v1ok c.v2ok (parse_offsets offs) o) r;
+          chk "C12" "delete" (check_delete c.a (isz ()) (parse_offsets offs) o) r;
         (match o with OOk (_, ms) -> ignore (apply_deleted "C12" ms r) | OErr _ -> ())
       end
     | ["delm"; offs] ->
       (match r with
-       | "err" :: cl :: sz :: ms ->
+       | "err" :: cl :: sz :: _ :: ms ->
          let msl = List.map parse_full_msg ms in
          if not c.tainted then
            chk "C12" "delete_multi_err"
-             (check_delete_multi c.a (isz ()) c.v1ok c.v2ok (parse_offsets offs) (OErr (eclass_of_string cl))) r;
+             (check_delete_multi c.a (isz ()) (parse_offsets offs) (OErr (eclass_of_string cl))) r;
          ignore (apply_deleted "C12" msl r)
        | _ ->
          let o = obs_of r p_del in
          if not c.tainted then
-           chk "C12" "delete_multi" (check_delete_multi c.a (isz ()) c.v1ok c.v2ok (parse_offsets offs) o) r;
+           chk "C12" "delete_multi" (check_delete_multi c.a (isz ()) (parse_offsets offs) o) r;
          (match o with OOk (_, ms) -> ignore (apply_deleted "C12" ms r) | OErr _ -> ()))
     | [("trimo" | "trimc" | "trims" | "trima" | "cupd" | "cdel"
        | "trim1o" | "trim1c" | "trim1s" | "trim1a" | "c1upd" | "c1del") as kind; arg] ->
       let argz = z_of_string arg in
       let multi = (String.length kind >= 4 && String.sub kind 0 4 = "trim" && kind.[4] <> '1')
                   || kind = "cupd" || kind = "cdel" in
-      let (ok, sz, ms) = (match r with
-          | "ok" :: sz :: ms -> (true, z_of_string sz, List.map parse_full_msg ms)
-          | "err" :: _ :: sz :: ms when multi -> (false, z_of_string sz, List.map parse_full_msg ms)
-          | _ -> (false, Z0, [])) in
-      ignore sz;
+      let (ok, sz, vs, ms) = (match r with
+          | "ok" :: sz :: vs :: ms -> (true, z_of_string sz, parse_vers vs, List.map parse_full_msg ms)
+          | "err" :: _ :: sz :: vs :: ms when multi -> (false, z_of_string sz, parse_vers vs, List.map parse_full_msg ms)
+          | _ -> (false, Z0, [], [])) in
+      if ok && not c.tainted then
+        chk "C12" "helper_deleted_size"
+          (check_delete c.a (isz ()) (List.map (fun m -> m.moff) ms) (OOk ((sz, vs), ms)) || ms = []) r;
       let prop = (if kind = "cupd" || kind = "cdel" || kind = "c1upd" || kind = "c1del" then "C16" else "C15") in
       let sel = List.map (fun m -> m.moff) ms in
       if not c.tainted then begin
